@@ -190,10 +190,6 @@ func c13Units(r *vlib.Run, crashed map[string]string) []cgenSeed {
 	return out
 }
 
-func c13Extra(seed cgenSeed) []cgenMut {
-	return nil
-}
-
 func TestVerif_C13(t *testing.T) {
 	r := vlib.Start(t, "C13")
 	if !cgenIsChild() {
@@ -269,6 +265,13 @@ func TestVerif_C13(t *testing.T) {
 	}
 	r.Extra("sum_planned_cases", planned)
 	r.Extra("seeds_total", len(all))
+	for _, seed := range units {
+		if !r.WantSample() {
+			break
+		}
+		r.Sample(map[string]interface{}{"type": seed.ct.Name, "seed_deviations": seed.devs, "seed_encoding": cgenHex(seed.enc),
+			"mutations": cgenMutCount(seed.enc, full && seed.structural)})
+	}
 	deaths := uint64(0)
 	skipped := cgenParentRun(r, t, "TestVerif_C13", units, nil, func(d cgenDeath) {
 		deaths++
